@@ -549,3 +549,48 @@ func optFloor(f []int, def int) int {
 func sameExpr(a, b ast.Expr) bool {
 	return types.ExprString(ast.Unparen(a)) == types.ExprString(ast.Unparen(b))
 }
+
+// importRules cross-registers rule groups of another property: it runs that
+// property's check into a scratch report and copies the obligations of the
+// picked rule ids into this report under the id `as` (one obligation per
+// original obligation, function and construct kept, the original id in the
+// construct). Used where a rule that is a necessary condition of this property
+// too lives inline in the other property's run function.
+func importRules(c *cx, src string, pick []string, as string) int {
+	r, ok := Registry[src]
+	if !ok {
+		c.r.Unresolved(as, "property "+src)
+		return 0
+	}
+	tmp := eng.NewReport(c.p, src, c.tier)
+	r.Run(c.p, tmp, c.tier)
+	n := 0
+	for _, o := range tmp.Obls {
+		for _, id := range pick {
+			if o.ID != id {
+				continue
+			}
+			n++
+			key := as + "|" + o.Func + "|" + o.Construct + " (" + o.ID + ")"
+			no := *o
+			no.ID = as
+			no.Construct = o.Construct + " (" + o.ID + ")"
+			no.Key = key
+			for i := 2; ; i++ {
+				dup := false
+				for _, e := range c.r.Obls {
+					if e.Key == no.Key {
+						dup = true
+					}
+				}
+				if !dup {
+					break
+				}
+				no.Key = fmt.Sprintf("%s#%d", key, i)
+			}
+			c.r.Obls = append(c.r.Obls, &no)
+		}
+	}
+	c.r.Floor(as, "obligations imported from "+src+" "+strings.Join(pick, ","), n, 1)
+	return n
+}
